@@ -2078,8 +2078,9 @@ func (f *File) ReadFrom(r io.Reader) (int64, error) {
 			m, err2 := f.writeChunkAt(ch, b[:n], f.offset)
 			f.offset += int64(m)
 
-			if err == nil {
-				err = err2
+			if err2 != nil {
+				// a write error must not be masked by the reader hitting EOF on the same chunk.
+				return read, err2
 			}
 		}
 
